@@ -247,6 +247,8 @@ impl GraphDatabaseService {
         });
 
         //ensure that the logs are properly computed during startup  because the application can be closed during a synchronisation
+        #[cfg(feature = "verif")]
+        crate::database::sqlite_database::verif_faults::start_point(crate::database::sqlite_database::verif_faults::P_START);
         database
             .writer
             .send(WriteMessage::ComputeDailyLog(
